@@ -223,3 +223,25 @@ def build(desc, d, name="src.sgy"):
 def annotate(case, S):
     """Record input observations the known-findings predicates need."""
     case.setdefault("obs", {})["segyio_calls_it_regular"] = bool(S.segyio_regular)
+
+
+# ---- generated ZGY sources (pyzgy's writer on openzgy; float32 annotation and sample axis) -----------
+def write_zgy(path, data, il, xl, z0_ms, dz_ms):
+    """il, xl = [start, step].  Returns what pyzgy reports for the written file: the *source* axes and
+    samples of the ZGY route are the ones its own reader gives back."""
+    import warnings
+    with warnings.catch_warnings():
+        warnings.simplefilter("ignore")
+        import pyzgy
+        from pyzgy.write import SeismicWriter
+        data = np.ascontiguousarray(data, dtype=np.float32)
+        with SeismicWriter(path, tuple(int(v) for v in data.shape), zstart=float(z0_ms), zinc=float(dz_ms),
+                           annotstart=(int(il[0]), int(xl[0])), annotinc=(int(il[1]), int(xl[1])),
+                           corners=[(1000.0, 2000.0), (1000.0, 2000.0 + 25 * (data.shape[0] - 1)),
+                                    (1000.0 + 12.5 * (data.shape[1] - 1), 2000.0),
+                                    (1000.0 + 12.5 * (data.shape[1] - 1), 2000.0 + 25 * (data.shape[0] - 1))]) as w:
+            w.write_volume(data)
+        with pyzgy.open(path) as f:
+            vol = np.stack([np.array(f.read_inline(i), dtype=np.float32, copy=True) for i in range(len(f.ilines))])
+            return {"ilines": np.array(f.ilines), "xlines": np.array(f.xlines), "samples": np.array(f.samples, dtype=np.float64),
+                    "cube": vol}
